@@ -549,6 +549,9 @@ def judge(case, tr, dev_runs, host_runs):
     return "match", ""
 
 
+RUNS_PER_JOB = 1200
+
+
 def main(tier: str, seed: int, only=None) -> int:
     report = Report(ID, LEVEL, tier, seed)
     stats: Dict[str, Any] = {}
@@ -556,7 +559,15 @@ def main(tier: str, seed: int, only=None) -> int:
         stats["host"] = host_bfs(report, tier)
         stats["host_multi"] = host_multi(report, tier)
     if not only or "device" in only:
-        cases = list(gen_device(tier))
+        cases = []
+        for case in gen_device(tier):
+            # one job = at most RUNS_PER_JOB schedules of one firmware (the parsed traces of ten thousand runs do not fit
+            # into memory sixteen times over)
+            if len(case["runs"]) <= RUNS_PER_JOB:
+                cases.append(case)
+            else:
+                for k in range(0, len(case["runs"]), RUNS_PER_JOB):
+                    cases.append(dict(case, id=f"{case['id']}#{k // RUNS_PER_JOB}", runs=case["runs"][k : k + RUNS_PER_JOB]))
         n_sched = sum(len(c["runs"]) for c in cases)
         stats["device"] = {"firmwares": len(cases), "schedules": n_sched}
         common.drive(report, MOD, sorted(cases, key=lambda c: -len(c["runs"])), opts={"host": False}, batch_size=1, bad=("violation", "nocompile", "transpile_crash", "transpile_timeout"))
